@@ -60,6 +60,13 @@ def grid_points(g):
     return pd.date_range(start=s, end=e, freq=g['freq'])[:-1]
 
 
+def equal_steps(g):
+    """True if all steps of the grid have the same real length (no DST switch inside the horizon)."""
+    pts = pd.date_range(start=pd.Timestamp(g['start'], tz=g.get('tz')), end=pd.Timestamp(g['end'], tz=g.get('tz')), freq=g['freq'])
+    v = np.array([p.value for p in pts])
+    return len(v) < 3 or bool(np.ptp(np.diff(v)) == 0)
+
+
 def naive_str(p):
     p = pd.Timestamp(p)
     return str(p.tz_localize(None) if p.tzinfo is not None else p)
@@ -125,7 +132,7 @@ def gen_prices(rng, T, keys, kind=None):
 # names
 # ------------------------------------------------------------------------------------------------
 HOSTILE_NAMES = ['1', '11', '111', '2', '12', '21', 'a', 'ab', 'abc', 'b', 'bc', 'x (y)', 'x', 'y', 'a__b', 'a_internal_b',
-                 ' (', 'n (n)', 'A', 'a ', 'Z_1', '1_Z', '0', '00', 'nan', 'None', 'disp', 'index', 'asset', '10', '01']
+                 ' (', 'n (n)', 'A', 'a ', 'Z_1', '1_Z', '0', '00', 'NaN ', 'none', 'disp', 'index', 'asset', '10', '01']
 
 
 def hostile_names(rng, k):
@@ -389,3 +396,141 @@ def abbreviate(spec):
             d['n_orders'] = len(a['orders']['start'])
         return d
     return {'grid': spec['grid'], 'assets': [ab(a) for a in spec['assets']]}
+
+
+# ------------------------------------------------------------------------------------------------
+# mixed portfolios (any asset type) - C01, C03, C04, C07, C09, ...
+# ------------------------------------------------------------------------------------------------
+COARSE_OF = {'15min': ['h', '2h'], '30min': ['h', '2h'], 'h': ['2h', '4h', 'd'], '2h': ['4h', 'd'], '4h': ['d']}
+PERIOD_OF = {'15min': [('h', None), ('2h', '4h')], '30min': [('2h', None), ('4h', 'd')], 'h': [('4h', None), ('d', None), ('4h', 'd'), ('6h', 'd')],
+             '2h': [('d', None), ('8h', 'd')], '4h': [('d', None), ('d', '2d')]}
+
+ALL_KINDS = ('contract', 'transport', 'storage', 'multi', 'orderbook', 'plant', 'chp', 'scaled', 'structured', 'coarse', 'periodic',
+             'storage_mip', 'storage_blocks')
+
+
+def gen_mixed_portfolio(rng, kinds=ALL_KINDS, g=None, n_assets=(2, 6), n_nodes=(1, 3), grid_kw=None, window=True, mip_ok=True):
+    grid_kw = dict(grid_kw or {})
+    need_sub = any(k in kinds for k in ('coarse', 'periodic'))
+    g = g or gen_grid(rng, **grid_kw)
+    f = UNIT_F[g['unit']]
+    T = len(grid_points(g))
+    nn = int(rng.integers(n_nodes[0], n_nodes[1] + 1))
+    nodes = ['n%d' % i for i in range(nn)]
+    assets = []; pk = []
+    for i, n in enumerate(nodes):
+        assets.append(gen_market(rng, 'mkt%d' % i, n, f, 'p%d' % i)); pk.append('p%d' % i)
+    k = int(rng.integers(n_assets[0], n_assets[1] + 1))
+    kinds = [x for x in kinds if mip_ok or x not in ('plant', 'chp', 'storage_mip')]
+    for j in range(k):
+        ty = pick(rng, kinds)
+        key = 'q%d' % j; pk.append(key)
+        if ty == 'contract':
+            assets.append(gen_contract(rng, g, 'c%d' % j, pick(rng, nodes), f, key, window=window))
+        elif ty == 'transport' and nn > 1:
+            n1, n2 = [nodes[int(i)] for i in rng.permutation(nn)[:2]]
+            assets.append(gen_transport(rng, g, 't%d' % j, n1, n2, f, cost_key=key, window=window))
+        elif ty == 'storage':
+            nds = [pick(rng, nodes)] if (nn == 1 or rng.random() < 0.6) else [nodes[int(i)] for i in rng.permutation(nn)[:2]]
+            assets.append(gen_storage(rng, g, 's%d' % j, nds, f, price_key=key, window=window))
+        elif ty == 'storage_mip':
+            a = gen_storage(rng, g, 'sm%d' % j, [pick(rng, nodes)], f, price_key=None, window=False, mip=True, inflow=False)
+            a['start_level'] = 0.; a['end_level'] = 0.
+            if a['size'] == 0:
+                a['size'] = 5.
+            assets.append(a)
+        elif ty == 'storage_blocks' and not g['freq'].endswith('d'):
+            a = gen_storage(rng, g, 'sb%d' % j, [pick(rng, nodes)], f, price_key=None, window=False)
+            a['end_level'] = a['start_level']
+            a['block_size'] = pick(rng, ['d', '12h', '6h'])
+            assets.append(a)
+        elif ty == 'multi' and nn > 1:
+            nds = [nodes[int(i)] for i in rng.permutation(nn)[:int(rng.integers(2, nn + 1))]]
+            assets.append(gen_multicommodity(rng, g, 'mc%d' % j, nds, f, key))
+        elif ty == 'orderbook':
+            assets.append(gen_orderbook(rng, g, 'ob%d' % j, pick(rng, nodes), full_exec=(mip_ok and rng.random() < 0.25)))
+        elif ty in ('plant', 'chp'):
+            fuel = 'fuel%d' % j
+            if ty == 'plant':
+                nds = [pick(rng, nodes)] + ([fuel] if rng.random() < 0.6 else [])
+            else:
+                heat = 'heat%d' % j
+                nds = [pick(rng, nodes), heat] + ([fuel] if rng.random() < 0.6 else [])
+                assets.append(gen_market(rng, 'mkt_' + heat, heat, f, key, spread=0.5, cap=30.))
+            if fuel in nds:
+                assets.append({'type': 'SimpleContract', 'name': 'mkt_' + fuel, 'nodes': [fuel], 'price': key, 'min_cap': 0., 'max_cap': 200. * f, 'extra_costs': 0., 'wacc': 0.})
+            assets.append(gen_plant(rng, g, ('pl%d' if ty == 'plant' else 'chp%d') % j, nds, f, 'p0', chp=(ty == 'chp'), simple=rng.random() < 0.4))
+        elif ty == 'scaled':
+            base = pick(rng, ['storage', 'contract', 'transport'])
+            if base == 'storage':
+                b = gen_storage(rng, g, 'sc_base%d' % j, [pick(rng, nodes)], f, window=False)
+            elif base == 'transport' and nn > 1:
+                n1, n2 = [nodes[int(i)] for i in rng.permutation(nn)[:2]]
+                b = gen_transport(rng, g, 'sc_base%d' % j, n1, n2, f, window=False, extended=False)
+            else:
+                b = gen_contract(rng, g, 'sc_base%d' % j, pick(rng, nodes), f, key, window=False, dict_caps=False)
+            s, e, kk = gen_window(rng, g, kinds=['none', 'none', 'inside', 'straddle_end'])
+            assets.append({'type': 'ScaledAsset', 'name': 'sc%d' % j, 'base': b, 'min_scale': pick(rng, [0., 0.5]), 'max_scale': pick(rng, [1., 3.]),
+                           'norm_scale': pick(rng, [1., 2.]), 'fix_costs': r2(pick(rng, [0., 0.1, 1.]) * f), 'start': s, 'end': e, 'wacc': 0.})
+        elif ty == 'structured':
+            inner_nodes = ['in%d_%d' % (j, q) for q in range(int(rng.integers(1, 3)))]
+            ext = pick(rng, nodes)
+            inner = [gen_storage(rng, g, 'st_s%d' % j, [inner_nodes[0]], f, window=False),
+                     gen_transport(rng, g, 'st_t%d' % j, inner_nodes[0], ext, f, window=False, extended=False)]
+            if len(inner_nodes) > 1:
+                inner.append(gen_transport(rng, g, 'st_u%d' % j, ext, inner_nodes[1], f, window=False, extended=False))
+                inner.append(gen_contract(rng, g, 'st_c%d' % j, inner_nodes[1], f, key, window=False, take=False))
+            inner.append({'type': 'SimpleContract', 'name': 'st_m%d' % j, 'nodes': [inner_nodes[0]], 'price': key, 'min_cap': -2. * f, 'max_cap': 2. * f, 'extra_costs': 0.2, 'wacc': 0.})
+            assets.append({'type': 'StructuredAsset', 'name': 'struct%d' % j, 'nodes': [ext], 'assets': inner})
+        elif ty == 'coarse' and g['freq'] in COARSE_OF:
+            cf = pick(rng, COARSE_OF[g['freq']])
+            base = pick(rng, ['contract', 'contract', 'storage', 'transport'])
+            if base == 'storage':
+                a = gen_storage(rng, g, 'co%d' % j, [pick(rng, nodes)], f, price_key=key, window=window)
+            elif base == 'transport' and nn > 1:
+                n1, n2 = [nodes[int(i)] for i in rng.permutation(nn)[:2]]
+                a = gen_transport(rng, g, 'co%d' % j, n1, n2, f, cost_key=key, window=window, take=False)
+            else:
+                a = gen_contract(rng, g, 'co%d' % j, pick(rng, nodes), f, key, window=window, take=False, dict_caps=False)
+            a['freq'] = cf; a['wacc'] = 0.
+            a['name'] = 'co%d' % j
+            assets.append(a)
+        elif ty == 'periodic' and g['freq'] in PERIOD_OF and equal_steps(g) and T >= 8:
+            per, dur = pick(rng, PERIOD_OF[g['freq']])
+            base = pick(rng, ['contract', 'contract', 'transport'])
+            if base == 'transport' and nn > 1:
+                n1, n2 = [nodes[int(i)] for i in rng.permutation(nn)[:2]]
+                a = gen_transport(rng, g, 'pe%d' % j, n1, n2, f, cost_key=None, window=False, take=False)
+            else:
+                a = gen_contract(rng, g, 'pe%d' % j, pick(rng, nodes), f, key, window=False, take=False, dict_caps=False)
+            a['periodicity'] = per
+            if dur:
+                a['periodicity_duration'] = dur
+            a['wacc'] = 0.
+            assets.append(a)
+        else:
+            assets.append(gen_contract(rng, g, 'c%d' % j, pick(rng, nodes), f, key, window=window))
+    if rng.random() < 0.6:
+        perm = rng.permutation(len(assets))
+        assets = [assets[int(i)] for i in perm]
+    return {'grid': g, 'assets': assets, 'prices': gen_prices(rng, T, sorted(set(pk)))}
+
+
+def asset_types(spec):
+    out = []
+    def rec(a):
+        out.append(a['type'] + ('+freq' if a.get('freq') else '') + ('+periodic' if a.get('periodicity') else '') +
+                   ('+blocks' if a.get('block_size') else '') + ('+nosimult' if a.get('no_simult_in_out') else '') +
+                   ('+maxdur' if a.get('max_store_duration') else '') + ('+fullexec' if a.get('full_exec') else ''))
+        if 'base' in a:
+            rec(a['base'])
+        for x in a.get('assets', []):
+            rec(x)
+    for a in spec['assets']:
+        rec(a)
+    return out
+
+
+def is_mip(spec):
+    ts = ' '.join(asset_types(spec))
+    return any(k in ts for k in ('Plant', 'CHPAsset', '+nosimult', '+maxdur', '+fullexec'))
